@@ -368,3 +368,30 @@ PROPS["C15"] = {
         ],
     },
 }
+
+PROPS["C17"] = {
+    "pkg": "c17", "level": "exploration",
+    "technique": "model-based property testing (rapid) of the handler life cycle: generated call sequences (valid deliveries, duplicates, foreign and undecodable messages, "
+                 "peer abort notices, Stop, Result, nil arguments) on MultiHandler and TwoPartyHandler with observational invariants after every step; and generated concurrent "
+                 "programs (2-6 goroutines over one handler plus a drainer) executed under the Go race detector",
+    "level_text": "Peers are replaced by the traffic they sent in an in-order run with the same randomness, so the handler under test really advances. After every call: no panic, "
+                  "channel closed iff Result() has left 'not finished', value xor error, Result fixed after the end, Stop ends a running session with an error and is a no-op "
+                  "afterwards, nothing is emitted after the end, and undisturbed sessions complete with the in-order result. Concurrent programs must be race-free "
+                  "(GORACE halt_on_error), panic-free, must terminate, and satisfy the same final-state invariants.",
+    "level_note": "The race detector only reports races that the executed interleavings exhibit; interleavings are those the Go scheduler produces (not harness-owned). Calls are "
+                  "made while the outgoing channel is drained, as the statement allows.",
+    "rule": "case = (handler kind/protocol, set of action kinds used, whether the session ended) for sequences; (protocol, goroutines, accepting goroutines, other call kinds) for "
+            "concurrent programs; non-trivial iff the sequence contains Stop / abort notice / undecodable message, or the program has >= 2 accepting goroutines plus "
+            "CanAccept/Result/Stop, or a Stop; distinct = distinct class keys",
+    "assumptions": [],
+    "tiers": {
+        "quick": [
+            {"run": "^TestSequential$", "checks": 4000, "shards": 6},
+            {"run": "^TestConcurrent$", "checks": 600, "shards": 10, "race": True},
+        ],
+        "thorough": [
+            {"run": "^TestSequential$", "checks": 160000, "shards": 6},
+            {"run": "^TestConcurrent$", "checks": 40000, "shards": 10, "race": True, "timeout": 7000},
+        ],
+    },
+}
